@@ -1,6 +1,7 @@
 package main
 
 import (
+	"github.com/spf13/afero"
 	"bytes"
 	"context"
 	"encoding/json"
@@ -273,6 +274,12 @@ func c03Cases(prop, tier string, seed uint64) []Case {
 			}
 		}
 		add(Cfg{Level: "fastest", RS: 20, WC: "file"})
+		// every compression format with every encryption format (each pair wires a decompressor to a decrypting reader)
+		for i, comp := range config.KnownCompressionFormats {
+			for j, enc := range config.KnownEncryptionFormats {
+				add(Cfg{Comp: comp, Level: config.KnownCompressionLevels[(i+j)%3], Enc: enc, Sig: config.KnownSignatureFormats[(i+2*j)%3], RS: rss[(i+j)%len(rss)], WC: wcs[(i+j)%2]})
+			}
+		}
 		for i, comp := range config.KnownCompressionFormats {
 			add(Cfg{Comp: comp, Level: config.KnownCompressionLevels[i%3], Enc: config.KnownEncryptionFormats[(i+1)%3], Sig: config.KnownSignatureFormats[(i+2)%3], RS: rss[i%len(rss)], WC: wcs[i%2]})
 		}
@@ -377,6 +384,17 @@ func c03Run(prop, tier string, c Case, w *Worker) (res Result) {
 			return
 		}
 		items = append(items, item{name, content, "fs"})
+	}
+	if !cfg.TapeMode {
+		// every configuration: one incompressible file that spans several codec blocks (bzip2 blocks of 100k at the fastest level,
+		// lz4 / zstandard blocks, the 64 KiB chunks of age, partial-length OpenPGP packets)
+		content := genContent(330001, "random", subSeed(c.Seed, "medium"))
+		if err := afero.WriteFile(rig.FS, "/medium", content, 0o644); err != nil {
+			fail("fs-write", "WriteFile(/medium, %d bytes): %v", len(content), err)
+			return
+		}
+		items = append(items, item{"/medium", content, "fs"})
+		res.count("medium_files", 1)
 	}
 	if p.Big > 0 {
 		content := genContent(p.Big, dists[int(c.Seed%3)], subSeed(c.Seed, "big"))
